@@ -1025,8 +1025,9 @@ class MyPyAstVisitor:
                 types = [self.mypy_type_to_abstract_type(arg) for arg in getattr(unanalyzed_type, "args", [])]
                 if len(types) == 1:
                     return sds_types.FinalType(type_=types[0])
-                elif len(types) == 0:  # pragma: no cover
-                    raise ValueError("Final type has no type arguments.")
+                elif len(types) == 0:
+                    # Bare "Final": the type checker has inferred the type from the assigned value
+                    return sds_types.FinalType(type_=self.mypy_type_to_abstract_type(mypy_type))
                 return sds_types.FinalType(type_=sds_types.UnionType(types=types))
             elif unanalyzed_type_name in {"list", "set"}:
                 type_args = getattr(mypy_type, "args", [])
